@@ -139,6 +139,9 @@ static void on_cpu(int sig) {
     (void)sig;
     char b[64]; int n = snprintf(b, sizeof b, "TIMEOUT %ld\n", cpu_ms);
     if (write(fileno(w_out), b, (size_t)n) < 0) {}
+#ifdef VERIF_COV
+    { extern void __gcov_dump(void); __gcov_dump(); }   /* coverage audit: keep the counters of this worker */
+#endif
     _exit(0);
 }
 static void arm(void) {
@@ -307,9 +310,10 @@ static void run_case(const kase* k, result* r, size_t* a0, size_t* a1) {
         int64_t total = 0, step = 0; int bad = 0;
         static const int pat[] = {1, 3, 8, 5, 2, 13, 7, 64, 9};
         while (total < count && carquet_rle_decoder_has_next(&dec)) {
-            int64_t want = pat[step % 9]; if (want > count - total) want = count - total;
+            uint64_t h = ((uint64_t)count * 31 + n + (uint64_t)step * 0x9E3779B97F4A7C15ULL) >> 17;   /* op order varies per case */
+            int64_t want = pat[(step + (h >> 8)) % 9]; if (want > count - total) want = count - total;
             int64_t got;
-            switch (step % 3) {
+            switch (h % 3) {
                 case 0: got = carquet_rle_decoder_get_batch(&dec, out + total, want); break;
                 case 1: got = carquet_rle_decoder_skip(&dec, want); break;
                 default: out[total] = carquet_rle_decoder_get(&dec);
@@ -320,6 +324,16 @@ static void run_case(const kase* k, result* r, size_t* a0, size_t* a1) {
             if (got == 0) break;
         }
         int st = dec.status;
+        /* after the end / after an error every call must deliver nothing and leave the state alone */
+        if (carquet_rle_decoder_has_next(&dec) && total < count) bad = 1;
+        if (total >= count || st != CARQUET_OK || !carquet_rle_decoder_has_next(&dec)) {
+            uint32_t scratch[4];
+            if (st != CARQUET_OK || !carquet_rle_decoder_has_next(&dec)) {
+                if (carquet_rle_decoder_get_batch(&dec, scratch, 4) != 0) bad = 1;
+                if (carquet_rle_decoder_skip(&dec, 4) != 0) bad = 1;
+                (void)carquet_rle_decoder_get(&dec);
+            }
+        }
         END();
         if (bad) RES("VIOL stream-count-exceeds-request");
         else if (st != CARQUET_OK) RES("ERR %d", st);
@@ -333,7 +347,9 @@ static void run_case(const kase* k, result* r, size_t* a0, size_t* a1) {
     } else if (!strcmp(op, "rle_levels_pref")) {
         o = out_alloc(mulsz(count, 2));
         size_t used = (size_t)-1;
-        BEGIN(); int64_t got = carquet_rle_decode_levels_prefixed(in, n, (int)k->p, o.p, count, &used); END();
+        int nullc = k->has_cap && k->cap == 0;                      /* cap token 0: bytes_consumed = NULL */
+        BEGIN(); int64_t got = carquet_rle_decode_levels_prefixed(in, n, (int)k->p, o.p, count, nullc ? NULL : &used); END();
+        if (nullc) used = 0;
         if (got < 0) { if (used != 0) RES("VIOL consumed-nonzero-on-error %zu", used); else RES("ERR %" PRId64, got); }
         else if (got > (count > 0 ? count : 0)) RES("VIOL count-exceeds-max %" PRId64 " > %" PRId64, got, count);
         else if (used > n) RES("VIOL consumed-exceeds-input %zu > %zu", used, n);
@@ -354,6 +370,8 @@ static void run_case(const kase* k, result* r, size_t* a0, size_t* a1) {
             if (got >= 0 && k->p == 6) vok = views_ok(o.p, count, in, n, &bad);
         } else {
             o = out_alloc(mulsz(count, es));
+            void* save = o.p;
+            if (strcmp(t, "flba") && (k->p & 1)) o.p = NULL;              /* p bit 0 (not flba): output = NULL -> must be refused */
             BEGIN();
             if (!strcmp(t, "bool")) got = carquet_decode_plain_boolean(in, n, o.p, count);
             else if (!strcmp(t, "i32")) got = carquet_decode_plain_int32(in, n, o.p, count);
@@ -364,6 +382,7 @@ static void run_case(const kase* k, result* r, size_t* a0, size_t* a1) {
             else if (!strcmp(t, "ba")) got = carquet_decode_plain_byte_array(in, n, o.p, count);
             else if (!strcmp(t, "flba")) got = carquet_decode_plain_fixed_byte_array(in, n, o.p, count, (int32_t)k->p);
             END();
+            if (o.p == NULL && save != NULL) { if (got >= 0) got = -9; o.p = save; }
             if (got >= 0 && !strcmp(t, "ba")) vok = views_ok(o.p, count, in, n, &bad);
         }
         if (got == -2) RES("SKIP unknown-op");
@@ -377,7 +396,8 @@ static void run_case(const kase* k, result* r, size_t* a0, size_t* a1) {
         o = out_alloc(mulsz(nv, is64 ? 8 : 4));
         size_t used = 0;
         BEGIN();
-        int st = is64 ? carquet_delta_decode_int64(in, n, o.p, nv, &used) : carquet_delta_decode_int32(in, n, o.p, nv, &used);
+        size_t* up = (k->p & 1) ? NULL : &used;                     /* p bit 0: bytes_consumed = NULL */
+        int st = is64 ? carquet_delta_decode_int64(in, n, o.p, nv, up) : carquet_delta_decode_int32(in, n, o.p, nv, up);
         END();
         if (st != CARQUET_OK) RES("ERR %d", st);
         else if (used > n) RES("VIOL consumed-exceeds-input %zu > %zu", used, n);
@@ -386,7 +406,8 @@ static void run_case(const kase* k, result* r, size_t* a0, size_t* a1) {
         int32_t nv = (int32_t)count;
         o = out_alloc(mulsz(nv, sizeof(carquet_byte_array_t)));
         size_t used = 0; int64_t bad = -1;
-        BEGIN(); int st = carquet_delta_length_decode(in, n, o.p, nv, &used); END();
+        BEGIN(); int st = carquet_delta_length_decode(in, n, (k->p & 2) ? NULL : o.p, nv, (k->p & 1) ? NULL : &used); END();   /* p bit 0 / 1: NULL out-parameters */
+        if ((k->p & 2) && st == CARQUET_OK) st = -9;
         if (st != CARQUET_OK) RES("ERR %d", st);
         else if (used > n) RES("VIOL consumed-exceeds-input %zu > %zu", used, n);
         else if (!views_ok(o.p, nv, in, n, &bad)) RES("VIOL view-outside-input index %" PRId64, bad);
@@ -396,7 +417,8 @@ static void run_case(const kase* k, result* r, size_t* a0, size_t* a1) {
         o = out_alloc(mulsz(nv, sizeof(carquet_byte_array_t)));
         o2 = out_alloc(k->cap);
         size_t used = 0; int64_t bad = -1;
-        BEGIN(); int st = carquet_delta_strings_decode(in, n, o.p, nv, o2.p, k->cap, &used); END();
+        BEGIN(); int st = carquet_delta_strings_decode(in, n, (k->p & 2) ? NULL : o.p, nv, o2.p, k->cap, (k->p & 1) ? NULL : &used); END();
+        if ((k->p & 2) && st == CARQUET_OK) st = -9;
         if (st != CARQUET_OK) RES("ERR %d", st);
         else if (used > n) RES("VIOL consumed-exceeds-input %zu > %zu", used, n);
         else if (!views_ok(o.p, nv, o2.p, k->cap, &bad)) RES("VIOL view-outside-work-buffer index %" PRId64, bad);
@@ -411,11 +433,13 @@ static void run_case(const kase* k, result* r, size_t* a0, size_t* a1) {
         o = out_alloc(mulsz(count, es));
         int st;
         BEGIN();
-        if (es == 4 && op[5] == '3') st = carquet_byte_stream_split_decode_float(in, n, o.p, count);
-        else if (es == 8 && op[5] == '6') st = carquet_byte_stream_split_decode_double(in, n, o.p, count);
+        void* vp = (op[4] == 'f' && op[5] != 'l' && (k->p & 1)) ? NULL : o.p;        /* p bit 0 (float / double): values = NULL */
+        if (es == 4 && op[5] == '3') st = carquet_byte_stream_split_decode_float(in, n, vp, count);
+        else if (es == 8 && op[5] == '6') st = carquet_byte_stream_split_decode_double(in, n, vp, count);
         else st = carquet_byte_stream_split_decode(in, n, (int32_t)k->p, o.p, count);
         END();
-        if (st != CARQUET_OK) RES("ERR %d", st);
+        if (vp == NULL && st == CARQUET_OK) RES("VIOL null-output-accepted");
+        else if (st != CARQUET_OK) RES("ERR %d", st);
         else RES("OK %" PRId64, count > 0 ? count : 0);
     } else if (!strncmp(op, "dict_", 5)) {
         const char* t = op + 5;
@@ -436,9 +460,11 @@ static void run_case(const kase* k, result* r, size_t* a0, size_t* a1) {
         o = out_alloc(k->cap);
         size_t got = (size_t)-1; int st;
         BEGIN();
-        if (op[0] == 's') st = carquet_snappy_decompress(in, n, o.p, k->cap, &got);
-        else st = carquet_lz4_decompress(in, n, o.p, k->cap, &got);
+        void* dp = (k->p & 1) ? NULL : o.p; size_t* gp = (k->p & 2) ? NULL : &got;     /* p bits: dst = NULL / dst_size = NULL */
+        if (op[0] == 's') st = carquet_snappy_decompress(in, n, dp, k->cap, gp);
+        else st = carquet_lz4_decompress(in, n, dp, k->cap, gp);
         END();
+        if ((k->p & 3) && st == CARQUET_OK) st = -9;
         if (st != CARQUET_OK) RES("ERR %d", st);
         else if (got > k->cap) RES("VIOL size-exceeds-capacity %zu > %zu", got, k->cap);
         else RES("OK %zu", got);
@@ -462,9 +488,11 @@ static void run_case(const kase* k, result* r, size_t* a0, size_t* a1) {
         }
         size_t got = (size_t)-1; int st;
         BEGIN();
-        if (op[0] == 'g') st = carquet_gzip_decompress(in, n, dstp, k->cap, &got);
-        else st = carquet_zstd_decompress(in, n, dstp, k->cap, &got);
+        void* dp = (k->p & 1) ? NULL : dstp; size_t* gp = (k->p & 2) ? NULL : &got;
+        if (op[0] == 'g') st = carquet_gzip_decompress(in, n, dp, k->cap, gp);
+        else st = carquet_zstd_decompress(in, n, dp, k->cap, gp);
         END();
+        if ((k->p & 3) && st == CARQUET_OK) st = -9;
         size_t first_bad = (size_t)-1, nbad = 0;
         if (guard) {
             __asan_unpoison_memory_region(blk + k->cap, guard);
@@ -480,15 +508,17 @@ static void run_case(const kase* k, result* r, size_t* a0, size_t* a1) {
 done_codec: ;
     } else if (!strcmp(op, "snappy_len")) {
         size_t got = 0;
-        BEGIN(); int st = carquet_snappy_get_uncompressed_length(in, n, &got); END();
+        BEGIN(); int st = carquet_snappy_get_uncompressed_length(in, n, (k->p & 2) ? NULL : &got); END();
+        if ((k->p & 2) && st == CARQUET_OK) st = -9;
         if (st != CARQUET_OK) RES("ERR %d", st); else RES("OK %zu", got);
     } else if (!strcmp(op, "thrift_ph")) {
         parquet_page_header_t* h = malloc(sizeof *h);
         carquet_error_t* e = malloc(sizeof *e);
         size_t used = (size_t)-1;
-        BEGIN(); int st = parquet_parse_page_header(in, n, h, &used, e); END();
+        BEGIN(); int st = parquet_parse_page_header(in, n, (k->p & 2) ? NULL : h, (k->p & 1) ? NULL : &used, (k->p & 4) ? NULL : e); END();   /* p bits: NULL header / bytes_read / error */
+        if ((k->p & 3) && st == CARQUET_OK) st = -9;
         int vbad = 0;
-        if (st == CARQUET_OK && h->type == CARQUET_PAGE_DATA && h->data_page_header.has_statistics) {   /* the union member selected by type */
+        if (st == CARQUET_OK && !(k->p & 3) && h->type == CARQUET_PAGE_DATA && h->data_page_header.has_statistics) {   /* the union member selected by type */
             /* since /repo 1aabf2d the statistics of a data page header are parsed and min/max are views
              * into the input: they must lie inside it (and every byte is touched) */
             const parquet_statistics_t* s4 = &h->data_page_header.statistics;
@@ -513,13 +543,15 @@ done_codec: ;
         int st = carquet_arena_init(&arena) == CARQUET_OK ? 0 : -3;
         long ns = 0, ng = 0; int st2 = -3; long ns2 = 0, ng2 = 0;
         if (st == 0) {
-            st = parquet_parse_file_metadata(in, n, &arena, m, e);
+            st = parquet_parse_file_metadata(in, n, (k->p & 1) ? NULL : &arena, (k->p & 2) ? NULL : m, (k->p & 4) ? NULL : e);   /* p bits: NULL arena / metadata / error */
+            if ((k->p & 3) && st == CARQUET_OK) st = -9;
             if (st == CARQUET_OK) { ns = m->num_schema_elements; ng = m->num_row_groups; g_sink += walk_metadata(m); }
             carquet_arena_destroy(&arena);
         }
         if (carquet_arena_init(&arena) == CARQUET_OK) {
             g_exact_arena = 1;
-            st2 = parquet_parse_file_metadata(in, n, &arena, m, e);
+            st2 = parquet_parse_file_metadata(in, n, (k->p & 1) ? NULL : &arena, (k->p & 2) ? NULL : m, (k->p & 4) ? NULL : e);
+            if ((k->p & 3) && st2 == CARQUET_OK) st2 = -9;
             if (st2 == CARQUET_OK) { ns2 = m->num_schema_elements; ng2 = m->num_row_groups; g_sink += walk_metadata(m); }
             g_exact_arena = 0;
             exact_free_all();
@@ -529,6 +561,72 @@ done_codec: ;
         if (st != st2 || ns != ns2 || ng != ng2) RES("VIOL arena-dependent-result %d/%ld/%ld vs %d/%ld/%ld", st, ns, ng, st2, ns2, ng2);
         else if (st != CARQUET_OK) RES("ERR %d", st); else RES("OK %ld %ld", ns, ng);
         free(m); free(e);
+    } else if (!strcmp(op, "thrift_prim")) {
+        /* the decoder primitives of thrift_decode.c that the two parsers do not call (double, uuid, allocated
+         * string, set header, skip_field, init from a reader) and the others, in a p-derived order, on exactly n
+         * bytes, until the decoder reports an error or stops advancing */
+        BEGIN();
+        carquet_buffer_reader_t rd0;
+        carquet_buffer_reader_init_data(&rd0, in, n);
+        thrift_decoder_t dec;
+        if (k->p & 1) thrift_decoder_init_reader(&dec, &rd0); else thrift_decoder_init(&dec, in, n);
+        size_t steps = 0; unsigned s = 0; int bad = 0;
+        while (dec.status == CARQUET_OK && steps < 4 * n + 16) {
+            size_t before = dec.reader.pos;
+            switch ((int)((k->p / 2 + (int64_t)steps * (1 + k->count % 7)) % 14)) {
+                case 0: { double d = thrift_read_double(&dec); s += (unsigned)(d != 0.0); break; }
+                case 1: { uint8_t u[16]; thrift_read_uuid(&dec, u); s += u[0] + u[15]; break; }
+                case 2: { char* str = thrift_read_string_alloc(&dec); if (str) { s += (unsigned)strlen(str); free(str); } break; }
+                case 3: { thrift_type_t et; int32_t c; thrift_read_set_begin(&dec, &et, &c);
+                          if (c < 0 || (size_t)c > n) bad = 1; s += (unsigned)et; break; }
+                case 4: thrift_skip_field(&dec, (thrift_type_t)(dec.reader.pos < n ? in[dec.reader.pos] & 15 : 5)); break;
+                case 5: { thrift_type_t ft; int16_t id; if (steps & 1) thrift_read_struct_begin(&dec);   /* also at nesting level 0 */
+                          if (thrift_read_field_begin(&dec, &ft, &id)) thrift_skip_field(&dec, ft);
+                          thrift_read_struct_end(&dec); break; }
+                case 6: { int32_t len = 0; const uint8_t* b = thrift_read_binary(&dec, &len);
+                          if (b) { if (len < 0 || b < in || (size_t)(b - in) + (size_t)len > n) bad = 1; else for (int32_t i = 0; i < len; i++) s += b[i]; }
+                          break; }
+                case 7: { thrift_type_t kt, vt; int32_t c; thrift_read_map_begin(&dec, &kt, &vt, &c); if (c < 0 || (size_t)c > n) bad = 1; break; }
+                case 8: { thrift_type_t et; int32_t c; thrift_read_list_begin(&dec, &et, &c); if (c < 0 || (size_t)c > n) bad = 1; break; }
+                case 9: s += (unsigned)thrift_read_i64(&dec); break;
+                case 10: s += (unsigned)thrift_read_i16(&dec) + (unsigned)thrift_read_byte(&dec); break;
+                case 11: s += (unsigned)thrift_read_bool(&dec); break;
+                case 12: s += (unsigned)thrift_read_i32(&dec); break;
+                default: s += (unsigned)strlen(thrift_type_name((thrift_type_t)(steps % 16))); thrift_skip(&dec, THRIFT_TYPE_BYTE); break;
+            }
+            if (dec.reader.pos > n) { bad = 1; break; }
+            steps++;
+            if (dec.reader.pos == before && steps > n + 16) break;
+        }
+        g_sink += s;
+        size_t used = dec.reader.pos; int st = dec.status;
+        END();
+        if (bad) RES("VIOL thrift-primitive-out-of-range");
+        else if (used > n) RES("VIOL consumed-exceeds-input %zu > %zu", used, n);
+        else if (st != CARQUET_OK) RES("ERR %d", st);
+        else RES("OK %zu", used);
+    } else if (!strcmp(op, "bitunpack")) {
+        /* carquet_bitunpack_32 / the per-width group kernels: p = width 0..32, count values; CONTRACT of these
+         * functions: the caller provides carquet_packed_size(count, width) bytes (rle.c / delta.c test exactly that) */
+        if (k->p < 0 || k->p > 32 || count < 0 || count > (1 << 20)) RES("SKIP outside-contract");
+        else {
+            size_t need = carquet_packed_size((size_t)count, (int)k->p);
+            if (n < need) RES("SKIP outside-contract");
+            else {
+                uint8_t* ex = malloc(need);                    /* exactly the bytes the contract promises */
+                if (need) memcpy(ex, in, need);
+                o = out_alloc(mulsz(count, 4));
+                BEGIN();
+                size_t used = carquet_bitunpack_32(ex, (size_t)count, (int)k->p, o.p);
+                carquet_bitunpack8_fn fn = carquet_get_bitunpack8_fn((int)k->p);
+                if (fn && count >= 8) { uint32_t g8[8]; fn(ex, g8); if (memcmp(g8, o.p, 32)) used = (size_t)-1; }
+                END();
+                if (used == (size_t)-1) RES("VIOL group-kernel-differs-from-bitunpack_32");
+                else if (used > need) RES("VIOL consumed-exceeds-input %zu > %zu", used, need);
+                else RES("OK %zu", used);
+                free(ex);
+            }
+        }
     } else if (!strcmp(op, "bitreader")) {
         /* carquet_bit_reader over exactly n bytes: reads of p-derived widths until exhausted */
         BEGIN();
@@ -536,13 +634,18 @@ done_codec: ;
         carquet_bit_reader_init(&br, in, n);
         size_t steps = 0, bits = 0; unsigned s = 0;
         while (carquet_bit_reader_has_more(&br) && steps < 8 * n + 8) {
+            if (steps % 11 == 3) { s += carquet_bit_reader_read_bits(&br, 0); s += (unsigned)carquet_bit_reader_read_bits64(&br, 0); }
+            if (steps % 13 == 5) { s += (unsigned)carquet_bit_reader_read_bits64(&br, 70); s += carquet_bit_reader_read_bits(&br, 40); }   /* clamped to 64 / 32 */
             int nb = (int)((k->p + (int64_t)steps * 7) % 65);
             if (nb < 0) nb = -nb;
             if (nb == 0) { int b = carquet_bit_reader_read_bit(&br); if (b < 0) break; s += (unsigned)b; bits += 1; }
-            else if (nb <= 32) { s += carquet_bit_reader_read_bits(&br, nb); bits += (size_t)nb; }
+            else if (nb <= 32 && (steps & 1)) { s += carquet_bit_reader_read_bits(&br, nb); bits += (size_t)nb; }
+            else if (nb <= 32) { s += (unsigned)carquet_bit_reader_read_bits64(&br, nb); bits += (size_t)nb;
+                                 s += (unsigned)carquet_bit_reader_remaining_bits(&br); }
             else { s += (unsigned)carquet_bit_reader_read_bits64(&br, nb); bits += (size_t)nb; }
             steps++;
         }
+        s += (unsigned)carquet_bit_reader_read_bit(&br);   /* at / past the end (the reader's state after reading past the end is not part of C08) */
         g_sink += s;
         END();
         RES("OK %zu", steps);
@@ -628,6 +731,9 @@ static void spawn(void) {
         if (to_w >= 0) close(to_w);
         if (from_w >= 0) close(from_w);
         worker_main(a[0], b[1]);
+#ifdef VERIF_COV
+        { extern void __gcov_dump(void); __gcov_dump(); }
+#endif
         _exit(0);
     }
     close(a[0]); close(b[1]);
